@@ -32,6 +32,7 @@ class TDef:
         self.safety = None     # alias safety
         self.values = []       # enum values
         self.fields = []       # object fields / union members: (name, type, safety)
+        self.deprecated = set()  # enum values / field / member names marked deprecated in the definition
 
     def ref(self):
         return ref(self.name, self.pkg)
@@ -40,8 +41,8 @@ class TDef:
         if self.kind == "alias":
             return alias(self.name, self.pkg, self.alias, self.safety)
         if self.kind == "enum":
-            return enum(self.name, self.pkg, self.values)
-        fs = [field(n, t, s) for (n, t, s) in self.fields]
+            return enum(self.name, self.pkg, [{"value": v, "deprecated": "use another value"} if v in self.deprecated else v for v in self.values])
+        fs = [field(n, t, s, deprecated="no longer used" if n in self.deprecated else None) for (n, t, s) in self.fields]
         if self.kind == "object":
             return obj(self.name, self.pkg, fs)
         return union(self.name, self.pkg, fs)
@@ -292,6 +293,11 @@ class LabGen:
                         t = self._strip_forward(t, i)
                     s = r.choice(SAFETIES) if (r.random() < p.safety and self._safety_allowed(t)) else None
                     d.fields.append((fn, t, s))
+            # deprecation marks (listed values / fields / members stay listed: only an attribute in the output)
+            if kind == "enum":
+                d.deprecated = {v for v in d.values if r.random() < 0.2}
+            elif kind in ("object", "union"):
+                d.deprecated = {f[0] for f in d.fields if r.random() < 0.1}
             self.types.append(d)
             self.by_name[name] = d
         self._build_errors()
@@ -386,6 +392,7 @@ class LabGen:
                 args, path = [], "/" + camel(r.sample(WORDS, 1)) + str(si) + "/" + ename.lower() + str(ei)
                 has_body = False
                 hdr_ids = set()
+                query_ids = set()
                 for an in anames:
                     kinds = ["path", "query", "query", "header"]
                     if method in ("POST", "PUT") and not has_body:
@@ -421,6 +428,11 @@ class LabGen:
                             path += "/" + r.choice(WORDS)
                     elif kind == "query":
                         pid = r.choice([an, camel(r.sample(WORDS, 2)), "-".join(r.sample(WORDS, 2)), "_".join(r.sample(WORDS, 2))])
+                        if pid in query_ids:
+                            pid = an          # query parameter ids are unique within an endpoint (argument names are)
+                        while pid in query_ids:
+                            pid += "Q"
+                        query_ids.add(pid)
                     elif kind == "header":
                         pid = None
                         while pid is None or pid.lower() in hdr_ids or pid.lower() in ("authorization", "cookie", "accept", "content-type", "content-length"):
@@ -454,6 +466,10 @@ class LabGen:
             t = prim("BINARY")
         else:
             t = self.scalar()
+        if self._is_binary(t) and self._declared_safe_alias(t):
+            # a streaming binary body whose alias type is declared SAFE does not compile (known finding
+            # C03-safe-binary-body, pinned in the C03 check): not drawn at random
+            t = prim("BINARY")
         y = r.random()
         if y < 0.15 and not self.is_optional(t):
             return opt(t)
@@ -462,6 +478,14 @@ class LabGen:
         if y < 0.3 and not self._is_binary(t):
             return map_(prim("STRING"), t)
         return t
+
+    def _declared_safe_alias(self, t):
+        while t["type"] == "reference" and self.by_name[t["reference"]["name"]].kind == "alias":
+            d = self.by_name[t["reference"]["name"]]
+            if d.safety == "SAFE":
+                return True
+            t = d.alias
+        return False
 
     def _is_binary(self, t):
         while t["type"] == "reference" and self.by_name[t["reference"]["name"]].kind == "alias":
@@ -480,3 +504,38 @@ class LabGen:
                         for s in services]
             rr.shuffle(services)
         return definition(types, services, errors)
+
+
+def layout_sensitive_types(pkg="com.verif.lab"):
+    """Double-bearing unions / objects whose Rust enums have layouts in which the discriminant is not the first byte
+    (niche-encoded: one large variant plus small ones, boxed recursion, nested unions). Appended to the first `laws`
+    lab of every run so that comparison code that peeks at raw bytes is always exercised on such layouts."""
+    D, S = prim("DOUBLE"), prim("STRING")
+    def td(kind, name, fields):
+        d = TDef(kind, name, pkg)
+        d.fields = [(n, t, None) for n, t in fields]
+        return d
+    r_ = lambda n: ref(n, pkg)
+    def enum_(name, values):
+        d = TDef("enum", name, pkg)
+        d.values = values
+        return d
+    return [
+        td("union", "PinLeafy", [("inner", lst(r_("PinRatioKind"))), ("text", S)]),
+        td("union", "PinRatioKind", [("count", r_("PinLeafy")), ("ratio", D)]),
+        td("union", "PinDeep", [("next", opt(r_("PinDeep"))), ("value", D)]),
+        td("object", "PinBigObj", [("a", S), ("b", lst(D)), ("c", map_(S, S)), ("d", opt(D))]),
+        td("union", "PinBig", [("rec", r_("PinBigObj")), ("small", D), ("again", opt(r_("PinBig")))]),
+        td("union", "PinSolo", [("only", D)]),
+        td("union", "PinTwo", [("a", D), ("b", S)]),
+        td("union", "PinMixed", [("a", opt(D)), ("b", lst(D)), ("c", set_(S)), ("d", r_("PinTwo")), ("e", map_(S, D))]),
+        td("union", "PinBoxedOnly", [("self", opt(r_("PinBoxedOnly"))), ("values", lst(D))]),
+        td("union", "PinFlag", [("flag", prim("BOOLEAN")), ("num", D), ("nested", r_("PinSolo"))]),
+        # the shape of the original witness: a wide object variant with niches (an enum field, a map keyed by doubles)
+        # beside small variants, no Unknown variant in the exhaustive configuration
+        enum_("PinColor", ["RED", "GREEN", "BLUE"]),
+        td("object", "PinInnerObj", [("label", prim("DATETIME")), ("index", prim("INTEGER"))]),
+        td("object", "PinWide", [("flagRed", map_(D, lst(S))), ("where", r_("PinColor")), ("state", r_("PinInnerObj"))]),
+        td("union", "PinNew", [("right", prim("SAFELONG")), ("mod", r_("PinWide")), ("info", set_(S))]),
+        td("union", "PinNewer", [("num", prim("INTEGER")), ("wide", r_("PinWide")), ("names", lst(S)), ("ratio", D)]),
+    ]
